@@ -185,7 +185,7 @@ func RunHBFree(cfg RConfig, workers []*RWorker) *ROutcome {
 	for {
 		// A disabled point does not consume a decision.
 		if last != nil {
-			if st, pt := last.peek(); st == rParked && cfg.Disabled[pt] && !isSpinning(last, pt) {
+			if st, pt := last.peek(); st == rParked && pointDisabled(cfg.Disabled, pt) && !isSpinning(last, pt) {
 				stats.point(pt)
 				stats.RSteps++
 				last.resume()
